@@ -98,6 +98,9 @@ class TreeGen:
         g = Node(level, self.fresh())
         step = self.rng.choice([5, 5, 2, 1, 10])
         g.children = self.members(level + step, depth + 1, in_occurs)
+        if self.o["fillers"] and self.rng.random() < 0.15:
+            g.name = self.rng.choice(["FILLER", None])      # `05 FILLER.` heading a group (its members may redefine each other)
+            self.features.add("filler-group")
         return g
 
     def member(self, level: int, depth: int, in_occurs: bool) -> Node:
@@ -332,7 +335,8 @@ def clause_text(n: Node, st: Style) -> str:
         # (the optional words TIMES and ON are left out for some items; which, depends on the item only)
         times = "" if (n.level + len(n.odo[2])) % 4 == 0 else " TIMES"
         on = "" if (n.level + len(n.odo[2])) % 3 == 0 else " ON"
-        parts.append(f"OCCURS {n.odo[0]} TO {n.odo[1]}{times} DEPENDING{on} {n.odo[2]}")
+        lo = "" if (n.odo[0] == 0 and (n.level + len(n.odo[2])) % 2 == 1) else f"{n.odo[0]} TO "     # "0 TO" may be left out
+        parts.append(f"OCCURS {lo}{n.odo[1]}{times} DEPENDING{on} {n.odo[2]}")
     parts += n.extra
     return " ".join(parts) + "."
 
